@@ -40,7 +40,7 @@ def make_driver(rng, pump, gear_ratio, shape=None, nameplate=None):
     return Driver(name=f'{shape} driver', design_power_curve=interpDict(pts))
 
 
-def random_pump(rng, which=None, mode=None):
+def random_pump(rng, which=None, mode=None, vary=False):
     pumps = example_pumps()
     name = which or rng.choice(sorted(pumps))
     base = pumps[name]
@@ -53,10 +53,21 @@ def random_pump(rng, which=None, mode=None):
         over['driver_name'] = over['driver'].name
     p = clone_pump(base, **over)
     p._example = name
+    if vary:
+        vary_setting(rng, p)
     return p
 
 
-def random_pipeline(rng, n_pumps=None, slurry=None, entrance_zero=None, dia_choices=(0.4, 0.5, 0.6, 0.65, 0.7, 0.762, 0.85, 0.9)):
+def vary_setting(rng, p):
+    """operating settings that are not constructor fields: reduced set speed and / or trimmed impeller"""
+    r = rng.random()
+    if r < 0.45:
+        p.current_speed = p.design_speed * rng.choice([0.7, 0.8, 0.85, 0.9, 0.95])
+    if 0.3 <= r < 0.6:
+        p.current_impeller = p.design_impeller * rng.choice([0.85, 0.9, 0.95])
+
+
+def random_pipeline(rng, n_pumps=None, slurry=None, entrance_zero=None, dia_choices=(0.4, 0.5, 0.6, 0.65, 0.7, 0.762, 0.85, 0.9), vary_speed=False):
     """pipeline of 2-8 pipe sections beginning and ending with a pipe, 0-3 pumps in between"""
     from DHLLDV.PipeObj import Pipe, Pipeline
     n_pipes = rng.randint(2, 8)
@@ -83,9 +94,19 @@ def random_pipeline(rng, n_pumps=None, slurry=None, entrance_zero=None, dia_choi
         L = 0.0 if (r < 0.12 and 0 < i < n_pipes - 1) else (rng.uniform(1.0, 50.0) if r < 0.5 else rng.uniform(50.0, 3000.0))
         secs.append(Pipe(f'pipe {i}', d, L, rng.choice([0.0, 0.1, 0.5, 1.0, 2.0]), rng.uniform(-15.0, 10.0) if L > 0 or rng.random() < 0.5 else 0.0))
     # pumps anywhere strictly between the first and the last pipe
+    placed = []
     for _ in range(n_pumps):
         pos = rng.randint(1, len(secs) - 1)
-        secs.insert(pos, random_pump(rng))
+        if vary_speed and placed and rng.random() < 0.4:
+            # a second pump of the same model and drive (equal constructor fields) run at its own speed / trim
+            q = clone_pump(placed[0])
+            q._example = placed[0]._example
+            q.current_speed = placed[0].current_speed * rng.choice([0.8, 0.85, 0.9, 1.0])
+            q.current_impeller = placed[0].current_impeller * rng.choice([0.9, 0.95, 1.0, 1.0])
+        else:
+            q = random_pump(rng, vary=vary_speed)
+        placed.append(q)
+        secs.insert(pos, q)
     pl = Pipeline(name='generated', pipe_list=secs, slurry=slurry)
     return pl
 
